@@ -1,35 +1,128 @@
 (* C05 — Ownership records are updated exactly.  Statements only; proofs in
-   Proofs/UpdaterLaws.v.  Single-version case without ignore configuration. *)
+   Proofs/UpdaterLaws.v and Proofs/UpdaterLaws2.v.  Single-version case without ignore
+   configuration.  Hypotheses: [compare_ok_wf], [fs_ok_wf], [conv_wf] say that comparing
+   and field-set extraction of WELL-FORMED objects yield well-formed sets and that the
+   converter preserves well-formedness (discharged for schemas satisfying schema_ok by
+   C11/C14, shown satisfiable at the end); [mf0] is the ownership map after the
+   schema reconciliation that opens every operation (C20). *)
 From Coq Require Import List ZArith String Bool.
-From SMD Require Import Model.Value Model.Order Model.PathElem Model.PathSet Model.Schema
-  Model.Compare Model.Updater Proofs.OrderLaws Proofs.PathSetLaws Proofs.UpdaterLaws.
+From SMD Require Import Model.Value Model.Order Model.PathElem Model.PathSet Model.Schema Model.Walk
+  Model.FieldSet Model.Compare Model.Matcher Model.Updater Spec.PathsAsSets Spec.Examples
+  Proofs.OrderLaws Proofs.PathSetLaws Proofs.UpdaterLaws Proofs.UpdaterLaws2.
 Import ListNotations.
+Open Scope list_scope.
 
-(* after a successful update step: every other manager's record only shrinks -- it loses
-   exactly the fields whose value the operation changed, created or removed ([keeps]),
-   keeps its version and applied/updated status; the actor's own record is left to the
-   caller (Apply has already set it to the configuration's field set, Update rewrites it
-   afterwards); no manager with an empty record remains *)
-Theorem C05_records_after_update_core : forall c n old new ver mf w force mf' cmp n',
-  no_ignore c -> single_version ver mf -> mf_ok mf ->
-  (forall cmp0, compare_tv c old new = Some cmp0 -> cmp_ok cmp0) ->
-  update_core c n old new ver mf w force = UOk (mf', cmp, n') ->
-  compare_tv c old new = Some cmp /\ n' = n /\ mf_ok mf' /\ single_version ver mf' /\
-  (forall m r, mf_get m mf' = Some r -> ps_empty (mr_set r) = false) /\
-  (mf_get w mf' = match mf_get w mf with
-                  | Some r => if ps_empty (mr_set r) then None else Some r
-                  | None => None
-                  end) /\
-  (forall m, m <> w ->
-     match mf_get m mf with
-     | None => mf_get m mf' = None
-     | Some r =>
-         match mf_get m mf' with
-         | None => forall p, wf_path p = true -> p <> [] -> keeps r cmp p = false
-         | Some r' =>
-             mr_ver r' = mr_ver r /\ mr_applied r' = mr_applied r /\
-             forall p, wf_path p = true -> p <> [] -> ps_has p (mr_set r') = keeps r cmp p
-         end
-     end).
+Theorem C05_apply_actor_record :
+  forall (c : config) (live cfg : string * value) (ver : string) 
+           (mf mf0 : managed) (n0 : nat) (mgr : string) (force : bool) 
+           (o : option tv) (mf' : managed),
+         no_ignore c ->
+         compare_ok_wf c ->
+         fs_ok_wf c ->
+         conv_wf c ->
+         wf_value (snd live) = true ->
+         wf_value (snd cfg) = true ->
+         reconcile_managed c 0 live mf = UOk (mf0, n0) ->
+         mf_ok mf0 ->
+         single_version ver mf0 ->
+         apply_op c live cfg ver mf mgr force = UOk (o, mf') ->
+         exists fs : pset,
+           to_fs c cfg = Some fs /\
+           mf_get mgr mf' =
+           (if ps_empty fs
+            then None
+            else Some {| mr_set := fs; mr_ver := ver; mr_applied := true |}).
+Proof. exact apply_op_actor_record. Qed.
+Print Assumptions C05_apply_actor_record.
+
+Theorem C05_update_actor_record :
+  forall (c : config) (live new : string * value) (ver : string) 
+           (mf mf0 : managed) (n0 : nat) (mgr : string) (o : tv) (mf' : managed),
+         no_ignore c ->
+         compare_ok_wf c ->
+         wf_value (snd live) = true ->
+         wf_value (snd new) = true ->
+         reconcile_managed c 0 live mf = UOk (mf0, n0) ->
+         mf_ok mf0 ->
+         single_version ver mf0 ->
+         update_op c live new ver mf mgr = UOk (o, mf') ->
+         o = new /\
+         (exists cmp : comparison3,
+            compare_tv c live new = Some cmp /\
+            (let before :=
+               fun p : path =>
+               match mf_get mgr mf0 with
+               | Some r => ps_has p (mr_set r)
+               | None => false
+               end in
+             let after :=
+               fun p : path =>
+               before p && negb (ps_has p (removed cmp)) || ps_has p (modified cmp)
+               || ps_has p (added cmp) in
+             match mf_get mgr mf' with
+             | Some r' =>
+                 mr_ver r' = ver /\
+                 mr_applied r' = false /\
+                 ps_ok (mr_set r') = true /\
+                 (forall p : path, wf_path p = true -> p <> [] -> ps_has p (mr_set r') = after p)
+             | None => forall p : path, wf_path p = true -> p <> [] -> after p = false
+             end)).
+Proof. exact update_op_actor_record. Qed.
+Print Assumptions C05_update_actor_record.
+
+Theorem C05_other_records :
+  forall (c : config) (n : nat) (old new : tv) (ver : string) 
+           (mf : managed) (w : string) (force : bool) (mf' : managed) 
+           (cmp : comparison3) (n' : nat),
+         no_ignore c ->
+         single_version ver mf ->
+         mf_ok mf ->
+         (forall cmp0 : comparison3, compare_tv c old new = Some cmp0 -> cmp_ok cmp0) ->
+         update_core c n old new ver mf w force = UOk (mf', cmp, n') ->
+         compare_tv c old new = Some cmp /\
+         n' = n /\
+         mf_ok mf' /\
+         single_version ver mf' /\
+         (forall (m : string) (r : mrec), mf_get m mf' = Some r -> ps_empty (mr_set r) = false) /\
+         mf_get w mf' =
+         match mf_get w mf with
+         | Some r => if ps_empty (mr_set r) then None else Some r
+         | None => None
+         end /\
+         (forall m : string,
+          m <> w ->
+          match mf_get m mf with
+          | Some r =>
+              match mf_get m mf' with
+              | Some r' =>
+                  mr_ver r' = mr_ver r /\
+                  mr_applied r' = mr_applied r /\
+                  (forall p : path,
+                   wf_path p = true -> p <> [] -> ps_has p (mr_set r') = keeps r cmp p)
+              | None => forall p : path, wf_path p = true -> p <> [] -> keeps r cmp p = false
+              end
+          | None => mf_get m mf' = None
+          end).
 Proof. exact update_core_records. Qed.
-Print Assumptions C05_records_after_update_core.
+Print Assumptions C05_other_records.
+
+Theorem C05_hypotheses_satisfiable_compare :
+  compare_ok_wf ex_config.
+Proof. exact ex_config_compare_ok. Qed.
+Print Assumptions C05_hypotheses_satisfiable_compare.
+
+Theorem C05_hypotheses_satisfiable_fs :
+  fs_ok_wf ex_config.
+Proof. exact ex_config_fs_ok. Qed.
+Print Assumptions C05_hypotheses_satisfiable_fs.
+
+Theorem C05_hypotheses_satisfiable_conv :
+  conv_wf ex_config.
+Proof. exact ex_config_conv_wf. Qed.
+Print Assumptions C05_hypotheses_satisfiable_conv.
+
+Theorem C05_hypotheses_satisfiable_noignore :
+  no_ignore ex_config.
+Proof. exact ex_config_no_ignore. Qed.
+Print Assumptions C05_hypotheses_satisfiable_noignore.
+
